@@ -10,9 +10,10 @@ import xml.etree.ElementTree as ET
 
 prop, m = sys.argv[1], sys.argv[2]
 checks = sys.argv[3:] or [prop]
-wt = f"/tmp/agent-wt-{prop}"
-src = f"/tmp/agent-out-{prop}/{m}"
-dst = f"/verif/seeded/{prop}-{m}"
+PFX = os.environ.get("AGENT_PREFIX", "agent")
+wt = f"/tmp/{PFX}-wt-{prop}"
+src = f"/tmp/{PFX}-out-{prop}/{m}"
+dst = f"/verif/seeded/{prop}-{m}" if PFX == "agent" else f"/verif/seeded/{prop}-{PFX[5:]}{m}"
 base = json.load(open("/root/.vp/BASELINE.json"))
 
 def sh(cmd, **kw):
